@@ -560,7 +560,9 @@ impl Wal {
             return Err(Error::WalProtocol("wal file is closed"));
         };
         if file.metadata()?.len() > len {
+            vio!(SetLen { path: self.path.clone(), len });
             file.set_len(len)?;
+            vio!(Sync { path: self.path.clone() });
             file.sync_data()?;
         }
         Ok(())
